@@ -15,6 +15,8 @@ import (
 
 	"github.com/tetratelabs/wazero"
 	"github.com/tetratelabs/wazero/api"
+	"github.com/tetratelabs/wazero/experimental"
+	"github.com/tetratelabs/wazero/internal/wasmruntime"
 	c "github.com/tetratelabs/wazero/internal/zz_verif/common"
 )
 
@@ -30,6 +32,7 @@ type Step struct {
 	Need   []int    `json:"need,omitempty"` // instantiations that must be live for the step to run
 	Tag    string   `json:"tag,omitempty"`  // pre / post : snapshot around instantiation number Of
 	Of     int      `json:"of,omitempty"`
+	Live   *LiveProbe `json:"live,omitempty"` // live-frame probe: what runs and what the property says it returns
 }
 
 type Obs struct {
@@ -60,6 +63,7 @@ type ModOut struct {
 	Start   bool       `json:"start"`
 	NImpF   int        `json:"nimpf"`
 	GInit   []*uint64  `json:"ginit"` // per global index: the value right after instantiation, when known by design
+	Host    bool       `json:"host,omitempty"` // live-frame family: the host module (functions in Case.Hosts)
 }
 
 type Case struct {
@@ -69,6 +73,10 @@ type Case struct {
 	Steps   []Step          `json:"steps"`
 	Engines map[string][]Obs `json:"engines"`
 	Witness string          `json:"witness,omitempty"`
+	Fam     string          `json:"fam,omitempty"`     // "live": the live-frame family (step kind hinst, host functions)
+	Threads bool            `json:"threads,omitempty"` // some memory type is shared: the runtime enables the threads proposal
+	NoModel bool            `json:"nomodel,omitempty"` // uses instructions outside W (table.set/grow): engines and oracle only
+	Hosts   []HostFn        `json:"hosts,omitempty"`
 	lm      []*LMod
 	bins    [][]byte
 }
@@ -82,6 +90,7 @@ type graph struct {
 	forceMod   int
 	forceName  string
 	forceType0 bool
+	forceShared bool // witness control: the faulty import is the memory import, with the other sharedness
 }
 
 func (g *graph) newMod() *LMod {
@@ -110,7 +119,16 @@ func (g *graph) exporter(witness string) *LMod {
 			m.MMax = m.MMin + 3
 		}
 	}
-	m.MObj = &Obj{Kind: 2, Owner: m.N, Min: m.MMin, HasMax: m.MHasMax, Max: m.MMax}
+	if witness == "w-shared" || (witness == "" && r.Intn(6) == 0) { // a shared memory (threads proposal): the maximum is mandatory
+		m.MShared = true
+		if !m.MHasMax {
+			m.MHasMax, m.MMax = true, m.MMin+uint32(r.Pick([]uint64{1, 3, 6}))
+		}
+	}
+	if witness == "w-unshared" && !m.MHasMax { // the importer will declare it shared, which needs a maximum that matches
+		m.MHasMax, m.MMax = true, m.MMin+uint32(r.Pick([]uint64{1, 3, 6}))
+	}
+	m.MObj = &Obj{Kind: 2, Owner: m.N, Min: m.MMin, HasMax: m.MHasMax, Max: m.MMax, Shared: m.MShared}
 	m.OwnTab, m.TMin = true, uint32(4+r.Intn(5))
 	if r.Bool() {
 		m.THasMax, m.TMax = true, m.TMin+uint32(r.Pick([]uint64{0, 2, 12}))
@@ -267,6 +285,12 @@ func (g *graph) importer(exps []*LMod, fault string) *LMod {
 			if o.HasMax && r.Intn(3) != 0 {
 				im.HasMax, im.Max = true, o.Max+uint32(r.Pick([]uint64{0, 0, 1, 100}))
 			}
+			if o.Kind == 2 && o.Shared { // a shared memory type always declares a maximum
+				im.Shared = true
+				if !im.HasMax {
+					im.HasMax, im.Max = true, o.Max+uint32(r.Pick([]uint64{0, 0, 1, 100}))
+				}
+			}
 		case 3:
 			im.Mut, im.VT = o.Mut, o.VT
 		}
@@ -287,7 +311,10 @@ func (g *graph) importer(exps []*LMod, fault string) *LMod {
 		if r.Bool() {
 			m.MHasMax, m.MMax = true, uint32(1+r.Intn(3))
 		}
-		m.MObj = &Obj{Kind: 2, Owner: m.N, Min: 1, HasMax: m.MHasMax, Max: m.MMax}
+		if m.MHasMax && r.Intn(6) == 0 {
+			m.MShared = true
+		}
+		m.MObj = &Obj{Kind: 2, Owner: m.N, Min: 1, HasMax: m.MHasMax, Max: m.MMax, Shared: m.MShared}
 	}
 	if r.Intn(5) != 0 {
 		x := pick()
@@ -409,7 +436,13 @@ func (g *graph) importer(exps []*LMod, fault string) *LMod {
 			if o.Kind == 1 {
 				vs = append(vs, "elem")
 			}
+			if o.Kind == 2 && (o.Shared || o.HasMax) { // declaring a memory shared needs a maximum, and the limits are to match
+				vs = append(vs, "shared-flip", "shared-flip")
+			}
 			im.Variant = vs[r.Intn(len(vs))]
+			if g.forceShared && o.Kind == 2 && (o.Shared || o.HasMax) {
+				im.Variant = "shared-flip"
+			}
 			switch im.Variant {
 			case "min+1":
 				im.Min = o.Min + 1
@@ -433,13 +466,18 @@ func (g *graph) importer(exps []*LMod, fault string) *LMod {
 				}
 			case "max-vs-none":
 				im.HasMax, im.Max = true, o.Min+uint32(r.Intn(4))
+			case "shared-flip": // limits that match, the other sharedness: all the specification objects to is the flag
+				im.Shared = !o.Shared
+				if im.Shared {
+					im.HasMax, im.Max = true, o.Max+uint32(r.Pick([]uint64{0, 0, 2}))
+				}
 			case "max-at-limit":
 				im.HasMax, im.Max = true, 65536
 			case "elem":
 				im.Elem = c.ExternRef
 				m.TObj = nil // an externref table: the module makes no indirect calls and has no element segments
 			case "kind": // the export is a table/memory, the import asks for a global of that name
-				im.Kind, im.Mut, im.VT = 3, false, c.I32
+				im.Kind, im.Mut, im.VT, im.Shared = 3, false, c.I32, false
 				if o.Kind == 1 {
 					m.TObj = nil
 				} else {
@@ -468,16 +506,7 @@ func (g *graph) importer(exps []*LMod, fault string) *LMod {
 		im.Mod, im.Variant = 9, "nomod"
 	}
 	// fill the exporter-side description for the oracle
-	for i := range m.Imports {
-		im := &m.Imports[i]
-		im.SigS = sigStr(im.Sig)
-		im.XKind = -1
-		if im.Mod < len(g.mods) {
-			if o, ok := g.mods[im.Mod].Exports[im.Name]; ok {
-				im.XKind, im.XMin, im.XHasMax, im.XMax, im.XElem, im.XMut, im.XVT, im.XSig = int(o.Kind), o.Min, o.HasMax, o.Max, o.Elem, o.Mut, o.VT, sigStr(o.Sig)
-			}
-		}
-	}
+	g.fillX(m)
 	// own globals: constants or the current value of an imported immutable global
 	for k := 1 + r.Intn(3); k > 0; k-- {
 		t := []byte{c.I32, c.I64}[r.Intn(2)]
@@ -753,6 +782,10 @@ func (g *graph) build(id int, witness string) *Case {
 					m = g.importer(good, "import")
 					g.forceType0 = false
 				}
+			case "w-shared", "w-unshared": // the memory import with the other sharedness (class 9), then the repaired variant
+				g.forceShared = true
+				m = g.importerWith(good, "import", func(m *LMod) bool { return hasVariant(m, "shared-flip") })
+				g.forceShared = false
 			case "w-grown":
 				m = g.importerWith(good, "import", func(m *LMod) bool {
 					for _, im := range m.Imports {
@@ -814,6 +847,16 @@ func (g *graph) build(id int, witness string) *Case {
 	snaps(&steps, live, "final", -1)
 	cs.Steps = steps
 	cs.lm = g.mods
+	for _, m := range g.mods {
+		if m.MShared {
+			cs.Threads = true
+		}
+		for _, im := range m.Imports {
+			if im.Shared {
+				cs.Threads = true
+			}
+		}
+	}
 	for _, m := range g.mods {
 		bin := m.Encode()
 		cs.bins = append(cs.bins, bin)
@@ -909,6 +952,8 @@ func classify(err string) int {
 		return 7
 	case has("value type mismatch"):
 		return 8
+	case has("shared mismatch"):
+		return 9
 	case has("not instantiated"):
 		return 20
 	case has("data[") && has("out of bounds memory access"):
@@ -926,6 +971,9 @@ func runCase(engine string, cs *Case) (obs []Obs) {
 		rc = wazero.NewRuntimeConfigCompiler()
 	} else {
 		rc = wazero.NewRuntimeConfigInterpreter()
+	}
+	if cs.Threads {
+		rc = rc.WithCoreFeatures(api.CoreFeaturesV2 | experimental.CoreFeaturesThreads)
 	}
 	rt := wazero.NewRuntimeWithConfig(ctx, rc.WithMemoryLimitPages(cs.Limit))
 	defer rt.Close(ctx)
@@ -947,6 +995,13 @@ func runCase(engine string, cs *Case) (obs []Obs) {
 			}
 			m := cs.lm[st.N]
 			switch st.K {
+			case "hinst":
+				hm, err := hostModule(ctx, rt, cs, m.Name, mods)
+				if err != nil {
+					o.Code, o.Err = 99, err.Error()
+					return
+				}
+				mods[st.N] = hm
 			case "inst":
 				o.FailIdx = -1
 				o.Cur = map[int]uint32{}
@@ -1014,9 +1069,95 @@ func runCase(engine string, cs *Case) (obs []Obs) {
 	return
 }
 
+// hostModule builds the host module of a live-frame case. Its functions look the target instance up when they run.
+func hostModule(ctx context.Context, rt wazero.Runtime, cs *Case, name string, mods map[int]api.Module) (api.Module, error) {
+	b := rt.NewHostModuleBuilder(name)
+	vts := func(ws []int) []api.ValueType {
+		o := make([]api.ValueType, len(ws))
+		for i, x := range ws {
+			o[i] = api.ValueTypeI32
+			if x == 64 {
+				o[i] = api.ValueTypeI64
+			}
+		}
+		return o
+	}
+	for k := range cs.Hosts {
+		h := cs.Hosts[k]
+		fn := api.GoModuleFunc(func(ctx context.Context, _ api.Module, stack []uint64) {
+			t := mods[h.Mod]
+			if t == nil {
+				panic(fmt.Sprintf("live host function %d: instance %d is not there", k, h.Mod))
+			}
+			switch h.Kind {
+			case "call":
+				args := make([]uint64, len(h.P))
+				copy(args, stack)
+				res, err := t.ExportedFunction(fmt.Sprintf("f%d", h.F)).Call(ctx, args...)
+				if err != nil {
+					panic(err)
+				}
+				copy(stack, res)
+			case "gset":
+				t.ExportedGlobal(fmt.Sprintf("g%d", h.G)).(api.MutableGlobal).Set(stack[0])
+			case "gget":
+				stack[0] = t.ExportedGlobal(fmt.Sprintf("g%d", h.G)).Get()
+			case "mwrite":
+				if !t.ExportedMemory("mem").WriteUint64Le(uint32(stack[0]), stack[1]) {
+					panic(wasmruntime.ErrRuntimeOutOfBoundsMemoryAccess) // as the store instruction the model re-enters would
+				}
+			case "mread":
+				v, ok := t.ExportedMemory("mem").ReadUint64Le(uint32(stack[0]))
+				if !ok {
+					panic(wasmruntime.ErrRuntimeOutOfBoundsMemoryAccess)
+				}
+				stack[0] = v
+			case "mgrow":
+				p, ok := t.ExportedMemory("mem").Grow(uint32(stack[0]))
+				if !ok {
+					p = 0xffffffff
+				}
+				stack[0] = uint64(p)
+			}
+		})
+		b = b.NewFunctionBuilder().WithGoModuleFunction(fn, vts(h.P), vts(h.R)).Export(fmt.Sprintf("f%d", k))
+	}
+	return b.Instantiate(ctx)
+}
+
+func auxRun(engine string, bin []byte) (res string) {
+	defer func() {
+		if e := recover(); e != nil {
+			res = fmt.Sprint("go panic: ", e)
+		}
+	}()
+	ctx := context.Background()
+	rc := wazero.NewRuntimeConfigInterpreter()
+	if engine == "compiler" {
+		rc = wazero.NewRuntimeConfigCompiler()
+	}
+	rt := wazero.NewRuntimeWithConfig(ctx, rc)
+	defer rt.Close(ctx)
+	var got uint64
+	if _, err := rt.NewHostModuleBuilder("env").NewFunctionBuilder().WithGoModuleFunction(api.GoModuleFunc(func(_ context.Context, _ api.Module, stack []uint64) {
+		got = stack[0]
+	}), []api.ValueType{api.ValueTypeI32}, nil).Export("h").Instantiate(ctx); err != nil {
+		return "host module: " + err.Error()
+	}
+	m, err := rt.Instantiate(ctx, bin)
+	if err != nil {
+		return "instantiate: " + err.Error()
+	}
+	if _, err := m.ExportedFunction("h").Call(ctx, 7); err != nil {
+		return "call: " + err.Error()
+	}
+	return fmt.Sprint("ok, host function saw ", got)
+}
+
 func main() {
 	seed := flag.Uint64("seed", 1, "")
 	n := flag.Int("n", 100, "")
+	nlive := flag.Int("nlive", 40, "")
 	flag.Parse()
 	// the shared splitmix generator makes seed s+1 the stream of seed s advanced by one: decorrelate the seeds first
 	rng := c.NewRng(c.NewRng(*seed).U64() ^ 0xc04c04c04)
@@ -1024,13 +1165,26 @@ func main() {
 	defer out.Flush()
 	var cases []*Case
 	// fixed witnesses of the known deviations, then random graphs
-	for _, w := range []string{"w-mutoff", "w-maxlimit", "w-dataelem", "w-elemoob", "w-reexport", "w-grown", "w-typeof"} {
+	for _, w := range []string{"w-mutoff", "w-maxlimit", "w-dataelem", "w-elemoob", "w-reexport", "w-grown", "w-typeof", "w-shared", "w-unshared"} {
 		g := &graph{r: c.NewRng(rng.U64())}
 		cases = append(cases, g.build(len(cases), w))
 	}
 	for i := 0; i < *n; i++ {
 		g := &graph{r: c.NewRng(rng.U64())}
 		cases = append(cases, g.build(len(cases), ""))
+	}
+	// live-frame family: fixed witnesses (the graph of the seeded defect C04c, every reader x writer x first-instruction
+	// combination per object kind), then random graphs. A generator of its own, so the older families keep their streams.
+	lrng := c.NewRng(c.NewRng(*seed).U64() ^ 0x11fe11fe)
+	forced := []*liveForce{{kind: "g32", demo: true}, {kind: "g64", demo: true}, {kind: "g32", combo: true}, {kind: "g64", combo: true},
+		{kind: "mem", combo: true, grow: 1}, {kind: "mem", combo: true, grow: 2}, {kind: "tab", combo: true, grow: 1}, {kind: "tab", combo: true, grow: 2}}
+	for _, f := range forced {
+		g := &graph{r: c.NewRng(lrng.U64())}
+		cases = append(cases, g.buildLive(len(cases), f))
+	}
+	for i := 0; i < *nlive; i++ {
+		g := &graph{r: c.NewRng(lrng.U64())}
+		cases = append(cases, g.buildLive(len(cases), nil))
 	}
 	var wg sync.WaitGroup
 	var mu sync.Mutex
@@ -1053,4 +1207,5 @@ func main() {
 	for _, cs := range cases {
 		out.Emit(cs)
 	}
+	out.Emit(auxReexportedHost())
 }
